@@ -123,3 +123,12 @@ Print Assumptions C03_iter_script_spec.
 
 Example C03_pick_example : pick [10; 11; 12; 13; 14]%nat [1; 0; 1; 5; 0]%nat = [11; 12; 14]%nat.
 Proof. reflexivity. Qed.
+
+(* a partly consumed child iterator: draining it by further calls of next yields, after the picks, exactly the
+   wanted children behind the last pick (rest_after) — what last / count / len / fold on the rest are computed from *)
+Theorem C03_iter_rest_spec : forall g (b : bool) rs p script,
+  let items := wanted_positions b p (kids g p) 0%nat in
+  fst (iter_script b (S (length (kids g p))) rs (iter_new g rs p) (script ++ repeat 0%nat (S (length items))))
+  = pick items script ++ rest_after items script.
+Proof. exact iter_rest_spec. Qed.
+Print Assumptions C03_iter_rest_spec.
